@@ -94,6 +94,8 @@ type Model struct {
 	// AssumeSwept: how a dequeue applied WITHOUT a listing resolves "a lease that expired less than the sweep
 	// granularity ago and was not returned": swept (true) or left (false). The linearizability search tries both.
 	AssumeSwept bool
+	// Churned: the history contains a churn operation already (the alphabet offers it once per history)
+	Churned bool
 }
 
 func New(cfg Config, now int64) *Model {
@@ -101,7 +103,7 @@ func New(cfg Config, now int64) *Model {
 }
 
 func (m *Model) Clone() *Model {
-	c := &Model{Cfg: m.Cfg, Now: m.Now, Items: make(map[string]*Msg, len(m.Items)), Issued: make(map[string]bool, len(m.Issued)), IssuedBase: make(map[string]int, len(m.IssuedBase)), Edges: m.Edges, PostHasLeases: m.PostHasLeases}
+	c := &Model{Cfg: m.Cfg, Now: m.Now, Items: make(map[string]*Msg, len(m.Items)), Issued: make(map[string]bool, len(m.Issued)), IssuedBase: make(map[string]int, len(m.IssuedBase)), Edges: m.Edges, PostHasLeases: m.PostHasLeases, Churned: m.Churned}
 	for k, v := range m.Items {
 		c.Items[k] = v.clone()
 	}
@@ -185,6 +187,8 @@ func (o Op) String() string {
 		fmt.Fprintf(&b, "(%+v)", o.Filter)
 	case "list", "listdead":
 		fmt.Fprintf(&b, "(%+v)", o.List)
+	case "churn":
+		fmt.Fprintf(&b, "(%d messages through another route)", o.Batch)
 	case "tick":
 		fmt.Fprintf(&b, "(%s)", o.Dur)
 	}
@@ -355,7 +359,7 @@ func (m *Model) pruneEligible(it *Msg, now int64, dequeue bool) bool {
 
 func pruneOp(kind string) bool {
 	switch kind {
-	case "enq", "enqb", "deq", "list", "listdead", "stats":
+	case "enq", "enqb", "deq", "list", "listdead", "stats", "churn":
 		return true
 	}
 	return false
@@ -484,6 +488,16 @@ func (m *Model) apply(op Op, obs *Obs, post []Msg, replacedMeansPruned bool) str
 		why = m.checkLookup(op, obs)
 	case "stats":
 		why = m.checkStats(obs)
+	case "churn":
+		// messages of a route of their own passed through the queue and were acked: nothing is left of them (the
+		// searches that use churn run without delivered retention) and nothing else changed - judged by the listing
+		m.Churned = true
+		if obs.Err != OK {
+			why = "traffic on another route failed: " + obs.ErrText
+		} else {
+			// its dequeues sweep expired leases and its calls may prune, like any other dequeue that returns nothing here
+			why = m.applyDequeue(Op{Kind: "deq", Route: "/zz-churn", Target: "zz", Batch: 1, TTL: time.Minute}, &Obs{Err: OK}, postByID)
+		}
 	case "reopen":
 		// a restart on the same database: nothing changes (retention prunes aside); judged by the listing below
 		if obs.Err != OK {
